@@ -305,6 +305,10 @@ func reifyStruct(opts *options, orig reflect.Value, cfg *Config) Error {
 		tryInitDefaults(to)
 		numField := to.NumField()
 		for i := 0; i < numField; i++ {
+			// every field is evaluated on its own, like the entries of a map:
+			// references resolved for one field are not active for the next
+			opts.activeFields = newFieldSet(parentFields)
+
 			fInfo, skip, err := accessField(to, i, opts)
 			if err != nil {
 				return err
